@@ -329,6 +329,10 @@ func (s *Server) addTarget(ctx context.Context, targetID configapi.TargetID, tar
 
 	// If the target is present in the overrides, use its type/version information to lookup the plugin
 	if ttv, ok := overrides[string(targetID)]; ok {
+		if ttv == nil {
+			// a map entry without a value decodes to a nil message
+			return errors.NewInvalid("target version override for %s has no type and version", targetID)
+		}
 		targetType = ttv.TargetType
 		targetVersion = ttv.TargetVersion
 	}
